@@ -71,6 +71,16 @@ CHECKS = {
               "periodic directions included) — post-state vs extracted model after each step (L1), map relation at mapped parameters, exact domains, periodicity, involutions (L2)."),
         note=TB + " C06: periodic reverse (needs the roll by periodic+1, repaired in /repo by a fix: commit) and volume swap are PARTIAL: transcribed and tested, not proved.",
         design='DESIGN.md section 8, C06'),
+    'C09': dict(
+        engine='kernelgen+objdiff',
+        technique='Coq proof (general affine-commutation theorem over the tensor contraction; ring identities on the rotation matrix regenerated from the source; mirror matrix algebra) + differential run of extracted model vs operation histories with a trig oracle',
+        text=("Theorems in Properties/C09.v: any coordinate-wise affine map of the control points is the same affine map of every evaluated point for every pardim (constant part via partition "
+              "of unity), with scale and translate instances; the Euler-Rodrigues matrix translated from utils.rotation_matrix on every run is orthogonal with determinant one, fixes its "
+              "axis and has the right trace (ring identities, no constraint solving); the mirror matrix is an involution, reflects the normal and fixes the plane. Correspondence: histories "
+              "of translate/scale/rotate/mirror/project/set_dimension/force_rational and all operator forms; L1 post-state vs extracted model, L2 evaluated point of the result = the stated "
+              "affine map (computed independently in exact arithmetic) of the evaluated point before, weights and bases untouched; angles/axes from rational half-angle tangents and Pythagorean triples."),
+        note=TB + " C09: cos/sin/sqrt are oracle inputs (rational points on the circle); rotate/mirror/project instances of the general theorem are not spelled out as separate theorems.",
+        design='DESIGN.md section 8, C09'),
 }
 
 PENDING_REASON = "not claimed in this revision: model/theorems for this property are still being built (see DESIGN.md section 8 for the plan)"
